@@ -21,6 +21,7 @@ class Oracles:
         self.flushes_active = 0
         self.flush_actors: List[Any] = []
         self.forget_epoch = 0
+        self.uc_actors: List[Any] = []
         self.probe_mode = False
         self.scan_all_tasks = False
 
@@ -483,6 +484,18 @@ class Oracles:
         else:
             w.label("set_size:unoccupied")
 
+    def op_abandon_uc(self, op: dict, ctx: dict) -> None:
+        """Somebody who waits in until_closed() gives up (is cancelled): nobody else's business."""
+        live = [a for a in self.uc_actors if not a.done()]  # type: ignore[attr-defined]
+        if not live or ctx.get("task") is not None:
+            return
+        a = live[op.get("k", 0) % len(live)]
+        a.vt_abandoned = True  # type: ignore[attr-defined]
+        a.cancel()
+        self.w.label("abandon:until_closed-waiter-cancelled")
+        if len(live) >= 2:
+            self.w.label("abandon:until_closed-waiter-cancelled-while-another-waits")
+
     def op_abandon(self, op: dict, ctx: dict) -> None:
         """The caller of a blocked flush() is cancelled. asyncio.gather then cancels what flush was awaiting: tasks that sit
         in their callbacks are disturbed by the *user's* cancellation; their callbacks are not owed any more, capacity is."""
@@ -792,9 +805,15 @@ class Oracles:
         w = self.w
         pm = self.pm_of(op)  # type: ignore[attr-defined]
         was_closed = pm.closed
+        me = asyncio.current_task()
+        self.uc_actors.append(me)  # type: ignore[attr-defined]
         try:
             r = await pm.pool.until_closed()
         except asyncio.CancelledError:
+            if not w.teardown and not getattr(me, "vt_abandoned", False):
+                # nobody cancelled *this* waiter: somebody else's giving up reached it
+                w.fail({"C08"}, "until_closed/waiter-cancelled-by-somebody-else", pm.name)
+                return
             raise
         except CaseTimeout:
             raise
